@@ -104,9 +104,18 @@ def run_ntrain(c):
 def run_wq(c):
     try:
         with np.errstate(all="ignore"):
-            r = weighted_quantile(np.array(c["values"]), np.array(c["qs"]), log_weights=np.array(c["logw"]),
+            sh = float(c.get("shift", 0.0))
+            r = weighted_quantile(np.array(c["values"]), np.array(c["qs"]), log_weights=np.array(c["logw"]) + sh,
                                   values_sorted=True)
-        return {"q": [float(v) for v in np.ravel(r)]}
+            out = {"q": [float(v) for v in np.ravel(r)]}
+            if sh != 0.0:
+                r0 = weighted_quantile(np.array(c["values"]), np.array(c["qs"]), log_weights=np.array(c["logw"]),
+                                       values_sorted=True)
+                out["q0"] = [float(v) for v in np.ravel(r0)]
+            if c.get("kind") == "equal":
+                ru = weighted_quantile(np.array(c["values"]), np.array(c["qs"]), values_sorted=True)
+                out["qu"] = [float(v) for v in np.ravel(ru)]
+        return out
     except Exception as e:
         return {"error": err(e)}
 
